@@ -41,7 +41,7 @@ def run(prop, tier, seed, opts):
     scratch = V.Scratch()
     violations, notes, stage_info, samples = [], [], [], []
     states = distinct = 0
-    n_sched = n_events = n_calls = 0
+    n_sched = n_events = n_calls = n_pool = 0
     try:
         harness = V.build_harness(scratch)
         race_harness = V.build_harness(scratch, race=True, name="harness-race")
@@ -101,7 +101,8 @@ def run(prop, tier, seed, opts):
             for mode in modes:
                 s = seed * 1000 + rnd
                 obs = scratch.path("events-%s-%d.ndjson" % (mode, rnd))
-                env = dict(os.environ, GORACE="halt_on_error=0")
+                pool = scratch.path("pool-%s-%d.ndjson" % (mode, rnd))
+                env = dict(os.environ, GORACE="halt_on_error=0", VERIF_POOL_TRACE=pool)
                 p = subprocess.run(["timeout", "300", race_harness, "stress", "-seed", str(s), "-g", "8", "-k", "60" if tier == "quick" else "150",
                                     "-mode", mode, "-obs", obs], capture_output=True, text=True, env=env)
                 summary = None
@@ -127,6 +128,17 @@ def run(prop, tier, seed, opts):
                         violations.append("VIOLATION property=C02 replay=%s" % path)
                         m0 = summary["mismatches"][0]
                         V.log("  concurrent result differs from serial: %s -> %r, serial %r" % (m0["call"].get("op") + " " + m0["call"].get("name"), m0["call"].get("out"), m0["serial"]))
+                # the traffic of the render-context pools under concurrent use, against PoolDiscipline
+                if os.path.exists(pool) and os.path.getsize(pool) > 0 and not fatal:
+                    import check as CK
+                    pinfo, pbad = CK.check_pool_trace(scratch, pool, "stress-%s-%d" % (mode, rnd), False)
+                    n_pool += pinfo["events"]
+                    states += pinfo["states"]
+                    distinct += pinfo["states"]
+                    if pbad:
+                        path = save("pool", {"property": "C02", "mode": mode, "seed": s, "pool_events": pbad[:10], "trace_spec": "Trace_Pool"})
+                        violations.append("VIOLATION property=C02 replay=%s" % path)
+                        V.log("  pool discipline broken under concurrent use: %s" % pbad[0]["why"])
                 # linearizability of RegisterString || Render
                 if os.path.exists(obs) and os.path.getsize(obs) > 0:
                     with open(obs) as f:
@@ -152,7 +164,7 @@ def run(prop, tier, seed, opts):
                     break
             if len(violations) >= 10:
                 break
-        stage_info.append(dict(stage="stress under -race + serial comparison + linearizability", rounds=rounds, modes=modes, calls=n_calls, events=n_events))
+        stage_info.append(dict(stage="stress under -race + serial comparison + linearizability", rounds=rounds, modes=modes, calls=n_calls, events=n_events, pool_events=n_pool))
         # 4. the model sees each defect class: every named deviation must violate an invariant (vacuity guard);
         #    binding self-test of the linearizability spec: a stale read must be rejected
         dev_info = None
